@@ -393,6 +393,44 @@ def check_keys_q(d1: int, th1: int, d2: int, th2: int, d3: int, th3: int, chunk:
     return keys_ok(schedule, chunk, list(NH), STORE, UPFRONT)
 
 
+def _multi(q1, q3, th3, chunk):
+    return _schedule(chunk * q1, 1, chunk, 1, chunk * q3, th3)
+
+
+def check_keys_chunks(q1: int, q3: int, th3: int, chunk: int) -> bool:
+    """
+    epochs sampled in several JIT chunks of more than one iteration (durations chunk*q1, chunk, chunk*q3)
+    pre: 1 <= q1 <= 2 and 1 <= q3 <= 2 and 2 <= chunk <= 3 and 1 <= th3 <= 2
+    post: _ == True
+    """
+    schedule = _multi(q1, q3, th3, chunk)
+    if any(ty == 4 and d % th != 0 for ty, d, th in schedule):
+        return True
+    return keys_ok(schedule, chunk, list(NH), STORE, UPFRONT)
+
+
+def check_lifecycle_chunks(q1: int, q3: int, th3: int, chunk: int) -> bool:
+    """
+    pre: 1 <= q1 <= 2 and 1 <= q3 <= 2 and 2 <= chunk <= 3 and 1 <= th3 <= 2
+    post: _ == True
+    """
+    schedule = _multi(q1, q3, th3, chunk)
+    if any(ty == 4 and d % th != 0 for ty, d, th in schedule):
+        return True
+    return lifecycle_ok(schedule, chunk, list(NH), STORE, UPFRONT)
+
+
+def check_chains_chunks(q1: int, q3: int, th3: int, chunk: int) -> bool:
+    """
+    pre: 1 <= q1 <= 2 and 1 <= q3 <= 2 and 2 <= chunk <= 3 and 1 <= th3 <= 2
+    post: _ == True
+    """
+    schedule = _multi(q1, q3, th3, chunk)
+    if any(ty == 4 and d % th != 0 for ty, d, th in schedule):
+        return True
+    return chains_ok(schedule, chunk, list(NH), STORE, UPFRONT)
+
+
 def _schedule4(d1, th1, d2, th2, d3, th3, d4, th4):
     return [(ty, d, th) for ty, (d, th) in zip(TYPES, [(d1, th1), (d2, th2), (d3, th3), (d4, th4)])]
 
